@@ -278,6 +278,17 @@ def check_mutator(ctx, m, exempt, helpers):
                 defs = m.defs().get(l0, [])
                 if len(defs) == 1 and defs[0][2] == "stmt" and defs[0][3].rv.k == "use" and defs[0][3].rv.ops[0].place is not None and defs[0][3].rv.ops[0].place.is_local():
                     l0 = defs[0][3].rv.ops[0].place.local
+                elif len(defs) == 1 and defs[0][2] == "stmt" and defs[0][3].rv.k == "use" and defs[0][3].rv.ops[0].place is not None \
+                        and len(defs[0][3].rv.ops[0].place.proj) == 1 and defs[0][3].rv.ops[0].place.proj[0]["k"] == "field":
+                    # the backups are kept together in a tuple: `let backup = (a.clone(), b.clone()); .. let (x, y) = backup;`
+                    pl = defs[0][3].rv.ops[0].place
+                    tdefs = m.defs().get(pl.local, [])
+                    k_ = pl.proj[0].get("i")
+                    if len(tdefs) == 1 and tdefs[0][2] == "stmt" and tdefs[0][3].rv.k == "aggregate" and tdefs[0][3].rv.j.get("ak") == "tuple" \
+                            and k_ is not None and k_ < len(tdefs[0][3].rv.ops) and tdefs[0][3].rv.ops[k_].place is not None and tdefs[0][3].rv.ops[k_].place.is_local():
+                        l0 = tdefs[0][3].rv.ops[k_].place.local
+                    else:
+                        break
                 else:
                     break
             defs = m.defs().get(l0, [])
